@@ -19,6 +19,7 @@ from ..exceptions import (
 )
 from ..tools import linker_to_dataframes as _linker_to_dataframes
 from ..tools import model_to_dataframe as _model_to_dataframe
+from .. import _verif
 
 
 class BaseLinker(SolverMixin, ModelInterface):
@@ -451,6 +452,10 @@ Spans of submodels differ:
 
             submodel.iterations[t] = 0
 
+        if _verif.ON:
+            _verif.emit('l_seeded', self, selected=[repr(x) for x in submodels],
+                        chk={repr(k): _verif.vec(v) for k, v in get_check_values().items()})
+
         # Run any code prior to solution
         self.solve_t_before(
             t,
@@ -460,6 +465,9 @@ Spans of submodels differ:
             iteration=0,
             **kwargs,
         )
+
+        if _verif.ON:
+            _verif.emit('l_before_done', self)
 
         for iteration in range(1, max_iter + 1):
             previous_values = copy.deepcopy(current_values)
@@ -472,6 +480,10 @@ Spans of submodels differ:
                 iteration=iteration,
                 **kwargs,
             )
+
+            if _verif.ON:
+                _verif.emit('l_pre', self, k=iteration)
+
             self.evaluate_t(
                 t,
                 submodels=submodels,
@@ -489,7 +501,14 @@ Spans of submodels differ:
                 **kwargs,
             )
 
+            if _verif.ON:
+                _verif.emit('l_post', self, k=iteration)
+
             current_values = get_check_values()
+
+            if _verif.ON:
+                _verif.emit('l_pass', self, k=iteration,
+                            chk={repr(k): _verif.vec(v) for k, v in current_values.items()})
 
             if iteration < min_iter:
                 continue
@@ -507,6 +526,10 @@ Spans of submodels differ:
                     iteration=iteration,
                     **kwargs,
                 )
+
+                if _verif.ON:
+                    _verif.emit('l_after_done', self)
+
                 break
 
         else:
@@ -518,6 +541,10 @@ Spans of submodels differ:
         for name in submodels:
             submodel = self.__dict__['submodels'][name]
             submodel.status[t] = status
+
+        if _verif.ON:
+            _verif.emit('l_stamp', self, st=status, it=iteration,
+                        subs={repr(k): [str(v.status[t]), int(v.iterations[t])] for k, v in self.__dict__['submodels'].items()})
 
         if status == SolutionStatus.FAILED.value and failures == 'raise':
             raise NonConvergenceError(
@@ -593,6 +620,9 @@ Spans of submodels differ:
 
             submodel.iterations[t] += 1
 
+            if _verif.ON:
+                _verif.emit('sub_pass', self, sub=repr(name), k=iteration, sub_it=int(submodel.iterations[t]))
+
     def solve_t_before(
         self,
         t: int,
@@ -640,3 +670,8 @@ Spans of submodels differ:
         **kwargs: Any,
     ) -> None:
         """Evaluate any linker equations after solving the individual submodels. Over-ride to implement custom linker behaviour."""
+
+
+if _verif.ON:
+    BaseLinker.solve_t = _verif.wrap_solve_t(BaseLinker.solve_t, 'linker')
+    BaseLinker.solve = _verif.wrap_solve(BaseLinker.solve, 'linker')
